@@ -22,6 +22,7 @@
 //!   profile   {id (32 hex, lower case), name} of the returned profile ("" / "" when none)
 //!   harness_error   the case could not be given to the adapter at all (not UTF-8, bad hex)
 mod mock;
+mod refresh;
 
 use passage_adapters::authentication::{minecraft_hash, AuthenticationAdapter};
 use passage_adapters_http::MojangAdapter;
@@ -80,6 +81,9 @@ fn case_of(vec: &Value) -> Result<Case, String> {
 
 fn main() {
     let args: Vec<String> = std::env::args().collect();
+    if args.get(1).map(|s| s.as_str()) == Some("refresh") {
+        return refresh::main(&args[2..]);
+    }
     let mut input = None;
     let mut output = None;
     let mut it = args[1..].iter();
